@@ -267,6 +267,9 @@ pub struct RecvTruth {
     pub closure: bool,
     pub transfer: bool,
     pub marker_queued: bool,
+    /// an EOF announced a size other than the file's: the script plays an untruthful sender,
+    /// the oracles that presuppose a truthful one do not apply from then on
+    pub untruthful: bool,
 }
 
 pub struct RecvCase {
@@ -524,12 +527,21 @@ impl RecvCase {
                 }
                 PDUPayload::Directive(Operations::EoF(e)) => {
                     if e.condition == Condition::NoError {
+                        if self.truth.file.as_ref().map_or(false, |f| f.len() as u64 != e.file_size) {
+                            self.truth.untruthful = true;
+                        }
                         self.truth.eof_size = Some(e.file_size);
                     } else {
                         self.truth.cancelled = true;
                     }
                 }
                 _ => {}
+            }
+        }
+        if let Some(n) = self.truth.eof_size {
+            // a truthful sender never sends data beyond the size its EOF announces
+            if self.truth.delivered.iter().any(|r| r.1 > n) {
+                self.truth.untruthful = true;
             }
         }
         // --- C09 / C20: the receiver's progress figure is the number of distinct bytes delivered
@@ -559,19 +571,24 @@ impl RecvCase {
                     self.truth.n_finished_ind += 1;
                     let success = f.report.condition == Condition::NoError && f.delivery_code == DeliveryCode::Complete;
                     let late_pdu = t[1] == "pdu" && !matches!(&delivered, Some(PDU { payload: PDUPayload::Directive(Operations::EoF(e)), .. }) if e.condition != Condition::NoError);
-                    if self.truth.success_reported && late_pdu {
+                    if self.truth.success_reported && late_pdu && !self.truth.untruthful {
                         // C04: a completed delivery is final (user cancels, peer cancels and the
                         // receiver's own limit faults may still end the transaction)
                         self.bad(out, viol, "C04", "finished_again", format!("a second Finished indication {} after a successful delivery was reported", ind_repr(i)));
                     }
+                    let complete = self.truth.meta_delivered && self.truth.eof_size.map_or(false, |n| !self.truth.transfer || missing(&self.truth.delivered, n).is_empty());
+                    if !success && f.delivery_code == DeliveryCode::Complete && !complete {
+                        // C18 / C01: whatever the condition, the delivery code says "complete" only when it is
+                        let prop = if self.cfg.mode == TransmissionMode::Unacknowledged { "C18" } else { "C01" };
+                        self.bad(out, viol, prop, "delivery_code_complete_without_data", format!("{} carries delivery code Complete although metadata/data are missing (meta={}, eof={:?}, held={:?})", ind_repr(i), self.truth.meta_delivered, self.truth.eof_size, self.truth.delivered));
+                    }
                     if success {
                         // C01 / C18: success only with metadata and every byte of [0,size) delivered
-                        let complete = self.truth.meta_delivered && self.truth.eof_size.map_or(false, |n| !self.truth.transfer || missing(&self.truth.delivered, n).is_empty());
                         if !complete {
                             let prop = if self.cfg.mode == TransmissionMode::Unacknowledged { "C18" } else { "C01" };
                             self.bad(out, viol, prop, "complete_without_data", format!("{} reported although metadata/data are missing (meta={}, eof={:?}, held={:?})", ind_repr(i), self.truth.meta_delivered, self.truth.eof_size, self.truth.delivered));
                         }
-                        if f.file_status == FileStatusCode::Retained {
+                        if f.file_status == FileStatusCode::Retained && !self.truth.untruthful {
                             if let (Some(file), Some(dest)) = (&self.truth.file, &self.truth.dest) {
                                 let got = std::fs::read(self.root.join(dest)).ok();
                                 if got.as_deref() != Some(&file[..]) {
@@ -596,7 +613,7 @@ impl RecvCase {
                             }
                         }
                     }
-                    if self.truth.success_reported && (f.condition == Condition::FileChecksumFailure || f.condition == Condition::FilesizeError) {
+                    if self.truth.success_reported && !self.truth.untruthful && (f.condition == Condition::FileChecksumFailure || f.condition == Condition::FilesizeError) {
                         self.bad(out, viol, "C04", "integrity_fault_after_success", format!("{} after a successful delivery was reported", ind_repr(i)));
                     }
                     let timer_fault = matches!(f.condition, Condition::PositiveLimitReached | Condition::NakLimitReached | Condition::InactivityDetected);
@@ -1198,7 +1215,10 @@ fn hexpdu(p: &PDU) -> String {
 fn gen_recv_script(rng: &mut Rng, cfg: &RecvCfg, file: &[u8], closure: bool, ck: ChecksumType, nreq: usize, transfer: bool) -> Vec<String> {
     let (mode, crc, fss) = (cfg.mode, cfg.crc, cfg.fss);
     let seg = (cfg.seg as usize).min(64).max(1);
-    let (src, dest) = if transfer { ("src.bin", "out.bin") } else { ("", "") };
+    // destination names: mostly a fresh file; sometimes an existing file (overwritten), a
+    // directory or a missing parent directory (both rejected by the filestore)
+    let dest_pick = *rng.pick(&["out.bin", "out.bin", "out.bin", "out.bin", "out.bin", "out.bin", "old", "d", "nodir/out.bin", "d/new.bin"]);
+    let (src, dest) = if transfer { ("src.bin", dest_pick) } else { ("", "") };
     let md = metadata_pdu(file, dest, src, closure, ck, nreq, mode, crc, fss);
     let mut events: Vec<String> = vec![];
     let mut data: Vec<String> = vec![];
@@ -1208,7 +1228,22 @@ fn gen_recv_script(rng: &mut Rng, cfg: &RecvCfg, file: &[u8], closure: bool, ck:
         data.push(format!("recv pdu {}", hexpdu(&fd(off as u64, &file[off..off + l], mode, crc, fss))));
         off += l;
     }
-    let eof = format!("recv pdu {}", hexpdu(&eof_pdu(file, ck, Condition::NoError, mode, crc, fss)));
+    let eof = {
+        let mut e = eof_pdu(file, ck, Condition::NoError, mode, crc, fss);
+        if rng.chance(1, 12) {
+            // a corrupted file (as the receiver sees it): the EOF checksum does not match
+            if let PDUPayload::Directive(Operations::EoF(x)) = &mut e.payload {
+                x.checksum = x.checksum.wrapping_add(1 + rng.below(3) as u32);
+            }
+        }
+        if rng.chance(1, 15) && file.len() > 3 {
+            // an EOF announcing fewer bytes than the data PDUs carry (FilesizeError at the receiver)
+            if let PDUPayload::Directive(Operations::EoF(x)) = &mut e.payload {
+                x.file_size -= 1 + rng.below(3);
+            }
+        }
+        format!("recv pdu {}", hexpdu(&e))
+    };
     // base order with faults
     let mut base: Vec<String> = vec![];
     if !rng.chance(1, 6) {
@@ -1228,6 +1263,17 @@ fn gen_recv_script(rng: &mut Rng, cfg: &RecvCfg, file: &[u8], closure: bool, ck:
     if rng.chance(1, 4) && base.len() > 2 {
         let i = rng.below(base.len() as u64 - 1) as usize;
         base.swap(i, i + 1);
+    }
+    // re-segmented data (a sender with another segment size, a relay that re-packs): truthful
+    // ranges that start and end anywhere, so that they overlap, bridge and swallow held segments
+    if rng.chance(1, 3) && file.len() > 2 {
+        for _ in 0..1 + rng.below(4) {
+            let a = rng.below(file.len() as u64 - 1) as usize;
+            let l = 1 + rng.below(((file.len() - a) as u64).min(3 * seg as u64 + 2)) as usize;
+            let l = l.min(file.len() - a);
+            let at = rng.below(base.len() as u64 + 1) as usize;
+            base.insert(at, format!("recv pdu {}", hexpdu(&fd(a as u64, &file[a..a + l], mode, crc, fss))));
+        }
     }
     if rng.chance(1, 8) {
         // EOF first
@@ -1489,7 +1535,7 @@ pub fn run_recv(opts: &Opts, out: &mut dyn Write) {
                 tn: *rng.pick(&[1i64, 3]),
                 immediate: rng.chance(1, 2),
                 delay_ms: *rng.pick(&[0u64, 0, 300]),
-                fho: rng.pick(&["-", "-", "8:a", "1:i", "7:s", "5:i", "6:i", "8:s;1:a"]).to_string(),
+                fho: rng.pick(&["-", "-", "8:a", "1:i", "7:s", "5:i", "6:i", "8:s;1:a", "10:i", "10:a", "10:s;5:i", "6:i;5:i", "4:i", "4:s", "5:a"]).to_string(),
             };
             let segu = seg as usize;
             let len = *rng.pick(&[0usize, 1, segu - 1, segu, segu + 1, 3 * segu, 3 * segu + 5, 2 * segu - 1]);
